@@ -48,3 +48,16 @@ package routing
 // transmit hands the bundle on (dispatching) or refuses it (foreign source) under the id it was filed with.
 // govc:func (*Core).transmit property C14
 //@ requires bp.bndl != nil && bp.Constraints != nil && bp.Id == bp.bndl.ID()
+
+// ---- bundle age (C06) ----
+
+// A bundle age block grows by the time the bundle has spent at this node since its reception, expressed in
+// milliseconds (time.Duration counts nanoseconds); the reception time itself is not touched, so the n-th retry adds
+// the whole residence time to the age the bundle arrived with... and nothing else in the bundle changes.
+// govc:func (*BundleDescriptor).UpdateBundleAge property C06
+//@ requires descriptor.bndl != nil && blocksNonNil(*descriptor.bndl) && ageUnique(*descriptor.bndl)
+//@ ensures descriptor.Timestamp == old(descriptor.Timestamp) && descriptor.bndl == old(descriptor.bndl)
+//@ ensures sameSlice(descriptor.bndl.CanonicalBlocks, old(descriptor.bndl.CanonicalBlocks))
+//@ ensures descriptor.bndl.PrimaryBlock.Lifetime == old(descriptor.bndl.PrimaryBlock.Lifetime) && descriptor.bndl.PrimaryBlock.CreationTimestamp == old(descriptor.bndl.PrimaryBlock.CreationTimestamp) && descriptor.bndl.PrimaryBlock.BundleControlFlags == old(descriptor.bndl.PrimaryBlock.BundleControlFlags)
+//@ ensures (result1 == nil) == (exists j int :: 0 <= j && j < len(descriptor.bndl.CanonicalBlocks) && descriptor.bndl.CanonicalBlocks[j].Value.BlockTypeCode() == 7)
+//@ ensures result1 == nil ==> forall j int :: 0 <= j && j < len(descriptor.bndl.CanonicalBlocks) && descriptor.bndl.CanonicalBlocks[j].Value.BlockTypeCode() == 7 ==> uint64(*(descriptor.bndl.CanonicalBlocks[j].Value.(*bpv7.BundleAgeBlock))) == old(uint64(*(descriptor.bndl.CanonicalBlocks[j].Value.(*bpv7.BundleAgeBlock)))) + uint64(time.Since(old(descriptor.Timestamp))) / 1000000 && result0 == uint64(*(descriptor.bndl.CanonicalBlocks[j].Value.(*bpv7.BundleAgeBlock)))
